@@ -20,35 +20,35 @@ CLAIMED = {
     "C04": ("property-based differential testing (rapid) against an independent reference framer; native coverage-guided fuzzing in the thorough tier",
             "Generated bodies (fixed-width codes with payloads of every other length, Address payloads of every family/length, AVP-shaped payloads, nesting, boundary-valued length fields) are decoded by the library and framed by an independent RFC 6733 framer; trees must be identical and framing errors must be errors. Some AVPs carry 64 KiB..16 MiB of payload; deep chains of nested groups (up to 100 levels) are included."),
     "C05": ("property-based testing (rapid) over message sequences x fragmentation plans with scripted readers (fragments, data delivered together with EOF / an error, read timeouts in mid-message, interleaved connections); exhaustive split-point enumeration for short streams",
-            "Sequences of messages around the 1 KiB buffer switch are delivered through every fragmentation (exhaustively for short streams) to ReadMessage and to the library's connection loop; messages, consumed byte counts, EOF / error outcomes and the declared-length<20 rejection are compared with the reference splitter. Consumers include bytes.Reader / bytes.Buffer / strings.Reader / bufio.Reader; messages of 1..8 MiB; a truncated message is never reported as a clean end of stream; an active peer whose segments straddle message boundaries for longer than Server.ReadTimeout keeps its connection. ReadMessage is also driven directly on a net.Conn."),
+            "Sequences of messages around the 1 KiB buffer switch are delivered through every fragmentation (exhaustively for short streams) to ReadMessage and to the library's connection loop; messages, consumed byte counts, EOF / error outcomes and the declared-length<20 rejection are compared with the reference splitter. Consumers include bytes.Reader / bytes.Buffer / strings.Reader / bufio.Reader; messages of 1..8 MiB; a truncated message is never reported as a clean end of stream; an active peer whose segments straddle message boundaries for longer than Server.ReadTimeout keeps its connection. ReadMessage is also driven directly on a net.Conn. Scripted readers may return empty reads."),
     "C06": ("stateful property-based testing (rapid): histories of retain / read / write / unmarshal-into-a-reused-struct / answer with an invariant checked after every step",
-            "Messages made of slice-backed types are decoded and retained while further reads (same goroutine, other goroutine, library-served connection) and writes happen; after every step each retained message must still equal the abstract message it was decoded from. Non-canonical wire images (odd Address widths, other version octets) are included, answers are echoed and marshalled, and the application overwrites its own copy of slice-backed values in place. A handler that keeps every request stands in front of a server state machine (CER accepted / refused, DWRs, accounting requests): the kept requests must not change when the state machine builds and writes its answers (one genuine defect found and repaired there)."),
+            "Messages made of slice-backed types are decoded and retained while further reads (same goroutine, other goroutine, library-served connection) and writes happen; after every step each retained message must still equal the abstract message it was decoded from. Non-canonical wire images (odd Address widths, other version octets) are included, answers are echoed and marshalled, and the application overwrites its own copy of slice-backed values in place. A handler that keeps every request stands in front of a server state machine (CER accepted / refused, DWRs, accounting requests): the kept requests must not change when the state machine builds and writes its answers (one genuine defect found and repaired there). Two decodings of the same bytes are kept and one is overwritten by its holder."),
     "C07": ("property-based testing (rapid) over writer schedules and fault plans with a scripted transport that stalls mid-write and accepts partial writes",
             "Concurrent writers through a diam.Conn onto a transport that stalls inside Write: no overlapping transport writes, the stream parses into exactly the sent messages, per-writer order kept. Fault plans of (bytes accepted, temporary error): with retries the remaining bytes and only those are sent. Retries and concurrency are combined (one defect found and repaired), inbound requests are served while the writers write, handles of ended connections are written to while a live connection is in use, and the fault plans also run over an in-memory SCTP association. Retrying and plain writers are mixed on one connection; retry budgets include MaxInt and MaxUint."),
     "C08": ("property-based testing (rapid) over arrival patterns and handler behaviours with scripted transports and harness-released handlers",
-            "Numbered messages arrive in arbitrary fragments on several in-memory connections (accept and dial paths, multi-stream SCTP associations with a stream per message, an explicit ServeMux or the nil-Handler default mux); handlers log enter/exit and may block until released; per connection the log must be strictly sequential in sending order and a held handler must not delay other connections. Handlers may also block inside their transport write; handlers registered while another is held; one peer's CEA or DWA stuck in its transport while other peers use the same state machine. A connection made by sm.Client with an unanswered watchdog request handles the peer's application messages one at a time as well."),
+            "Numbered messages arrive in arbitrary fragments on several in-memory connections (accept and dial paths, multi-stream SCTP associations with a stream per message, an explicit ServeMux or the nil-Handler default mux); handlers log enter/exit and may block until released; per connection the log must be strictly sequential in sending order and a held handler must not delay other connections. Handlers may also block inside their transport write; handlers registered while another is held; one peer's CEA or DWA stuck in its transport while other peers use the same state machine. A connection made by sm.Client with an unanswered watchdog request handles the peer's application messages one at a time as well. Handlers may answer and then keep running."),
     "C09": ("exhaustive enumeration of the dispatch decision space over dict.Default plus property-based testing (rapid) over generated dictionaries, against a reference decision table",
-            "Every resolvable (application, command, R/A) message x every subset of the eight registration kinds (and every once/twice assignment for replacement) is dispatched through a fresh ServeMux and compared with the decision table index -> name -> ALL -> error report; registration / dispatch histories on ONE mux (incl. HandleIdx(ALL_CMD_INDEX) and replacement) are compared with a model after every step. Several goroutines dispatch through one mux while registrations go on (also under the race detector); a registration must not wait for a running handler. The error report is looked for only after the dispatch. For a command no dictionary entry names, a registered catch-all must run."),
+            "Every resolvable (application, command, R/A) message x every subset of the eight registration kinds (and every once/twice assignment for replacement) is dispatched through a fresh ServeMux and compared with the decision table index -> name -> ALL -> error report; registration / dispatch histories on ONE mux (incl. HandleIdx(ALL_CMD_INDEX) and replacement) are compared with a model after every step. Several goroutines dispatch through one mux while registrations go on (also under the race detector); a registration must not wait for a running handler. The error report is looked for only after the dispatch. For a command no dictionary entry names, a registered catch-all must run. Handlers are also registered by several goroutines at once, and one message object is reused for every dispatch."),
     "C10": ("exhaustive enumeration of short peer histories plus property-based testing (rapid) of longer ones against a handshake-gate model, server and client side",
             "Histories over {acceptable / rejected / retransmitted CER, DWR, application requests and answers registered by name, by index and via catch-all} are played to a state machine over in-memory transports; an application handler must run iff the handshake had succeeded when the message was dispatched, exactly once, in order; built-in CER/CEA/DWR processing must survive registration attempts. Up to 300 peers share one state machine; invocations are read again after a settling time (a refused message stays refused). Handlers may store values of their own in the connection's context; a client state machine with two connections must keep the second closed when a duplicate CEA arrives on the first."),
     "C11": ("exhaustive enumeration of small CERs plus property-based testing (rapid) of larger ones against an acceptance model written from the statement",
             "CERs over every presence combination of identity / inband security and multisets of application items (supported, unsupported, wrong type, relay, vendor-specific) are sent to a server state machine; acceptance, result code, closing, metadata and the CEA contents are compared with the model; several connections share one state machine and every connection's metadata is read again after all handshakes; custom dictionaries. The state machine's supported-applications list is compared with the reference dictionary's after every load of a dictionary history. A late CER to a server with a WriteTimeout still gets its CEA; an empty non-nil address list configures nothing."),
     "C12": ("property-based testing (rapid) of scripted peers against a handshake outcome model; real short timers, only sound lower bounds and counts asserted",
-            "A scripted peer answers the k-th CER with success / failure / malformed / silence / disconnect and sends extra CEAs afterwards; transmissions (identical bytes, count, spacing), the outcome of the dial, closing on failure and stability after success are compared with the model; redials on one Client; CEAs advertising applications only in vendor-specific groups; the TLS dial entry points with a dial timeout over loopback TLS (inconclusive, never a violation, where loopback listening is unavailable). Also: a client with a dictionary of its own; multi-homed and zoned local endpoints when no address is configured. The peer may react to a CER with messages that are not a CEA. CEAs of a relay (relay application id only) are followed by answers in the advertised application."),
+            "A scripted peer answers the k-th CER with success / failure / malformed / silence / disconnect and sends extra CEAs afterwards; transmissions (identical bytes, count, spacing), the outcome of the dial, closing on failure and stability after success are compared with the model; redials on one Client; CEAs advertising applications only in vendor-specific groups; the TLS dial entry points with a dial timeout over loopback TLS (inconclusive, never a violation, where loopback listening is unavailable). Also: a client with a dictionary of its own; multi-homed and zoned local endpoints when no address is configured. The peer may react to a CER with messages that are not a CEA. CEAs of a relay (relay application id only) are followed by answers in the advertised application. Two connections of one client state machine stay up when the earlier one receives extra CEAs; application lists cut from one array."),
     "C13": ("property-based testing (rapid) of scripted peers against a watchdog model; real short timers, only sound lower bounds and counts asserted",
-            "A scripted peer answers the first or only a later transmission of the CER (no DWR may precede the CEA) and then answers / stops answering / answers only a retransmission of the client's DWRs; identity, spacing, retransmission count, closing of a silent peer and sparing of a responsive one are checked; a state machine must answer every well-formed DWR of a handshaken peer with a mirrored success DWA, whatever the order of its AVPs, also from several connections at once. Also: fail-over to a second peer on the same Client after the first one fell silent. Application traffic in both directions goes on while the watchdog runs; a state machine served by a Server with WriteTimeout, over an in-memory transport honouring write deadlines, keeps and answers a peer that is quiet for longer than the timeout; intervals left zero mean the documented defaults (lower bound). Over loopback TLS a hung peer must see the TCP connection end."),
+            "A scripted peer answers the first or only a later transmission of the CER (no DWR may precede the CEA) and then answers / stops answering / answers only a retransmission of the client's DWRs; identity, spacing, retransmission count, closing of a silent peer and sparing of a responsive one are checked; a state machine must answer every well-formed DWR of a handshaken peer with a mirrored success DWA, whatever the order of its AVPs, also from several connections at once. Also: fail-over to a second peer on the same Client after the first one fell silent. Application traffic in both directions goes on while the watchdog runs; a state machine served by a Server with WriteTimeout, over an in-memory transport honouring write deadlines, keeps and answers a peer that is quiet for longer than the timeout; intervals left zero mean the documented defaults (lower bound). Over loopback TLS a hung peer must see the TCP connection end. One failed DWR write must not stop the watchdog silently."),
     "C14": ("exhaustive enumeration of short event orders plus property-based testing (rapid) of longer ones, with a scripted transport that exposes 'reader is parked'; goroutine-leak oracle",
             "Orders of {CloseNotify requested from a handler / from another goroutine while the reader is parked / after termination, fragments of valid messages, one terminating event (EOF, read error, undecodable input, local Close, handler panic, failed TLS handshake; also while a handler waits for a channel requested earlier)} are executed; every channel must be open before and closed after termination, messages delivered exactly once in order, and no library goroutine may remain. Also: requests and end of input in one segment, several connections of one server, nobody reading ErrorReports(), a transport stuck in Write, and a schedule search that releases the first request and the termination at the same instant. Also: Close() after the channel fired while a handler is held or stuck in a write; a transient receive error played with and without a CloseNotify request."),
     "C15": ("property-based testing (rapid) over fault placements among concurrent in-memory connections, incl. a listener handing out TLS connections before their handshake",
             "Handler panics, undecodable input, abrupt disconnects and temporary accept errors are placed among several connections served by one Server; healthy connections must receive every answer, faulty ones must be closed (with an error report for undecodable input), and the listener must keep accepting; on a TLS listener stalled, non-TLS and hung-up handshakes must not keep later connections from being served; the nil-Handler default mux. Undecodable input includes complete messages with a malformed member inside a grouped AVP. The server's handler may be an sm.StateMachine; runs of 9 and 11 consecutive temporary accept errors."),
     "C16": ("exhaustive enumeration of id pairs x flag bytes plus property-based testing (rapid); in-memory SCTP backend for the stream half",
-            "Answers built through Message.Answer and by the state machine (CEA, DWA) are compared with the request: command, application, both identifiers incl. zero, R cleared, P unchanged, Result-Code iff asked; over the in-memory SCTP backend the answer must be written to the stream the request arrived on, also when it is written after the handler returned, through WriteToWithRetry against scripted write faults, or with Server.WriteTimeout set. 8..96 late answers written at once from a goroutine each are paired with their requests by hop-by-hop id (also under the race detector). Servers with ReadTimeout / WriteTimeout; some requests are first forwarded with WriteToStream, as a relay does."),
+            "Answers built through Message.Answer and by the state machine (CEA, DWA) are compared with the request: command, application, both identifiers incl. zero, R cleared, P unchanged, Result-Code iff asked; over the in-memory SCTP backend the answer must be written to the stream the request arrived on, also when it is written after the handler returned, through WriteToWithRetry against scripted write faults, or with Server.WriteTimeout set. 8..96 late answers written at once from a goroutine each are paired with their requests by hop-by-hop id (also under the race detector). Servers with ReadTimeout / WriteTimeout; some requests are first forwarded with WriteToStream, as a relay does. On the client side of an SCTP association DWAs go to the stream of the DWR."),
     "C17": ("exhaustive comparison of every lookup over the embedded dictionaries with an independent dictionary model, property-based testing (rapid) of generated dictionary sets in every load order, exhaustive type-name and constant checks",
             "An independent model (own XML structs, lookup rules from the statement) is compared with the library on every (application, code, name, vendor) of the embedded dictionaries and their neighbours, on generated dictionary sets after every Load (with monotonicity), on every declarable type name (encode + decode), and on the exported constants parsed from the sources. Documents are also loaded through Parser.LoadFile and loaded again under another spelling of their path."),
     "C18": ("property-based testing (rapid) over generated struct TYPES (reflect.StructOf) and values: hand-built-AVP oracle for Marshal, round trip through Unmarshal directly and over the wire",
             "Struct types covering every supported field shape and tag form (datatype types, other datatype types that convert losslessly, native Go types, pointers, slices, nested / embedded structs, diam.AVP fields) are generated together with values (zero values, empty slices, nil pointers included) and marshalled into fresh and into already used messages; Marshal output must equal the AVP list built by hand from the dictionary and Unmarshal into a fresh value must reproduce the fields. A second value goes through the same message object; one declared struct type is used for two applications that bind its names differently. Tag forms in which another key carries an omitempty option of its own."),
     "C19": ("exhaustive enumeration of small chunk interleavings plus property-based testing (rapid) of large ones over an in-memory SCTP backend consumed by the library's own connection loop",
-            "Per-stream message sequences are cut into chunks and merged in any order that preserves each stream's order; the connection loop must deliver every message once, in its stream's order, reporting the right stream, and replies must be written to that stream. Delivered messages are compared again after the association is over (retention), header-only messages and stream numbers up to 65535 are included. 1 in 6 cases another association of the process has died in mid-message just before, with data still buffered for the same stream numbers."),
+            "Per-stream message sequences are cut into chunks and merged in any order that preserves each stream's order; the connection loop must deliver every message once, in its stream's order, reporting the right stream, and replies must be written to that stream. Delivered messages are compared again after the association is over (retention), header-only messages and stream numbers up to 65535 are included. 1 in 6 cases another association of the process has died in mid-message just before, with data still buffered for the same stream numbers. Half of the replies are written to the association itself."),
     "C20": ("property-based testing (rapid) against a reference pre-order tree walk, incl. search / change / search histories on one message and two dictionaries in one process",
             "AVP trees with repeated codes at several depths are built through the API and by decoding; FindAVP / FindAVPs / FindAVPsWithPath by number, name and path must return pointer-identical results to a reference walk; absent codes never yield another AVP. One AVP object placed at two positions of a tree is included. Private dictionaries that define a code twice (group for one vendor, scalar for the other) or one name for two vendors are searched by number and by name."),
 }
